@@ -21,6 +21,7 @@ package main
 //   Z <case> <same|diff>             cross-process comparison of the identifiers of a case
 
 import (
+	"time"
 	"bufio"
 	"bytes"
 	"context"
@@ -714,8 +715,16 @@ func (w *codecWorld) runLinkKey(h int, r *rand.Rand) {
 	api := mockstore.New()
 	pool := newCidPool(r, w.out)
 	k1b, k2b := randBytes(r, 32), randBytes(r, 32)
-	k1, _ := enc.NewSecretbox(k1b)
-	k2, _ := enc.NewSecretbox(k2b)
+	// both keys are built from one scratch buffer that is overwritten and finally wiped, the way key
+	// material is handled: a SharedKey must own its bytes
+	scratch := make([]byte, 32)
+	copy(scratch, k1b)
+	k1, _ := enc.NewSecretbox(scratch)
+	copy(scratch, k2b)
+	k2, _ := enc.NewSecretbox(scratch)
+	for i := range scratch {
+		scratch[i] = 0
+	}
 	io1 := w.io0.ApplyOptions(&cbor.Options{LinkKey: k1})
 	io2 := w.io0.ApplyOptions(&cbor.Options{LinkKey: k2})
 	fmt.Fprintf(w.out, "K %s %s\n", codecHx0(k1b), codecHx0(k2b))
@@ -1857,15 +1866,19 @@ func (w *codecWorld) runPoison(h int, r *rand.Rand) {
 			}()
 			fmt.Fprintf(w.out, "LD %s %s %s\n", tag, fmtLinks(roots), res)
 		}
+		// few request slots and a deadline: bad blocks must neither use up the slots nor stall the load
+		// (with a stall the deadline turns it into a truncated result, which the model does not predict)
+		pconc := []int{0, 0, 1, 1, 2, 3}[r.Intn(6)]
+		pto := 3 * time.Second
 		load("mh", hs, func() (*ipfslog.IPFSLog, error) {
-			return ipfslog.NewFromMultihash(w.ctx, api, idA, mhash, &ipfslog.LogOptions{}, &ipfslog.FetchOptions{})
+			return ipfslog.NewFromMultihash(w.ctx, api, idA, mhash, &ipfslog.LogOptions{}, &ipfslog.FetchOptions{Concurrency: pconc, Timeout: pto})
 		})
 		root := all[r.Intn(len(all))].GetHash()
 		load("eh", []cid.Cid{root}, func() (*ipfslog.IPFSLog, error) {
-			return ipfslog.NewFromEntryHash(w.ctx, api, idA, root, &ipfslog.LogOptions{ID: "P"}, &ipfslog.FetchOptions{})
+			return ipfslog.NewFromEntryHash(w.ctx, api, idA, root, &ipfslog.LogOptions{ID: "P"}, &ipfslog.FetchOptions{Concurrency: pconc, Timeout: pto})
 		})
 		load("js", hs, func() (*ipfslog.IPFSLog, error) {
-			return ipfslog.NewFromJSON(w.ctx, api, idA, &iface.JSONLog{ID: "P", Heads: hs}, &ipfslog.LogOptions{ID: "P"}, &entry.FetchOptions{})
+			return ipfslog.NewFromJSON(w.ctx, api, idA, &iface.JSONLog{ID: "P", Heads: hs}, &ipfslog.LogOptions{ID: "P"}, &entry.FetchOptions{Concurrency: pconc, Timeout: pto})
 		})
 	}
 	// a poisoned manifest is an error, not a crash
